@@ -739,6 +739,44 @@ func (vc *VC) compileCall(env *Env, n *SNode) *Val {
 			sfail("fe: argument must be a pointer to a field element")
 		}
 		return &Val{K: KInt, C: []string{sel(sel(env.heap.m["fe"], pv.C[0]), pv.C[1])}}
+	case "ret":
+		// ret("Name", K): the value returned by the K-th call (source order) to Name in the function under
+		// verification (tuple results: ret("Name", K, i)). On a path that does not pass the call the value is
+		// unconstrained, so use it under a condition that selects the call's path.
+		if len(args) < 2 || args[0].Op != "str" {
+			sfail("ret: expected ret(\"Name\", K[, i])")
+		}
+		nm, _ := strconv.Unquote(args[0].Tok)
+		kv := vc.compile(env, args[1])
+		if kv.K != KConst {
+			sfail("ret: the call ordinal must be a constant")
+		}
+		var call *ssa.Call
+		for _, b := range vc.fn.Blocks {
+			for _, ins := range b.Instrs {
+				if c, ok := ins.(*ssa.Call); ok && callName(c.Common()) == nm && int64(vc.callOrdinal(c)) == kv.N.Int64() {
+					call = c
+				}
+			}
+		}
+		if call == nil {
+			sfail("ret: no call %s#%s in %s", nm, kv.N.String(), vc.fn.Name())
+		}
+		v := vc.vals[call]
+		if v == nil {
+			v = vc.symVal("ret_"+sanitize(nm), call.Type(), env.heap)
+		}
+		if len(args) == 3 {
+			iv := vc.compile(env, args[2])
+			if iv.K != KConst || v.K != KTuple || int(iv.N.Int64()) >= len(v.Elems) {
+				sfail("ret: bad result index")
+			}
+			return v.Elems[iv.N.Int64()]
+		}
+		if v.K == KTuple {
+			sfail("ret: %s returns several values; use ret(\"%s\", K, i)", nm, nm)
+		}
+		return v
 	case "athead":
 		// athead(E): E evaluated in the heap at the head of the innermost enclosing loop (current iteration)
 		need(1)
